@@ -7,6 +7,18 @@ props = [json.loads(l) for l in open(os.path.join(HERE, "properties.jsonl"))]
 TECH = "bounded symbolic execution of rustc MIR (mirsym) decided by z3; counterexamples replayed natively"
 
 CLAIMED = {
+ "C06": dict(
+   text="Bounded model checking of the file-system log format: the real encoder (<EventRecord as Encodable>::encode) writes k <= 2 (quick) / 3 (thorough) records with symbolic time, commits and payload bytes behind the identity bytes, and the real iterator (FormatStream::next_forward / next_back, EventLogRecord::decode, byte_length) reads them back, both from the MIR of the current tree. z3 decides, for every value of the symbolic fields, that forward iteration yields exactly the appended records in order with their timestamps and commits, that every row's offsets frame exactly the encoder's bytes and its value range is the payload, that backward iteration is the mirror image and that byte lengths add up to the file length minus the header.",
+   note="Format layer of the file-system backend only. Trusted: rustc MIR, mirsym and its reader/writer models, z3. Outside: the per-operation file I/O of apply/rewind/clear/replace_all (vfs model not built), the sqlite backend, cross-backend agreement, co-resident logs, advisory locks; that stored commit hashes are SHA-256 of the event bytes.",
+   design="DESIGN.md section 3, C06"),
+ "C12": dict(
+   text="Bounded model checking of the reducer/compaction kernel: FolderReducer::{reduce,compact,build}, Vault::{into_event,set_name,flags_mut,insert_entry,...} and the vault codec they call run from the MIR of the current tree on every sequence of <= 2 (quick) / 3 (thorough) event kinds after CreateVault, with symbolic names, flags, meta blobs, ids from a pool of two and entries. z3 decides per path that build(reduce(compact(reduce(L)))) equals build(reduce(L)) on name, flags, meta and the id->entry map and that the compacted log has 1 + #live-secrets events; counterexamples are replayed on a real file-system event log.",
+   note="Kernel only. Trusted: rustc MIR, mirsym models (IndexMap as association list, streams from a harness event log), z3. Outside: replace_all_events I/O, password/cipher changes through LocalAccount (and the claim that old keys stop working), both storage backends; encryption is opaque.",
+   design="DESIGN.md section 3, C12"),
+ "C14": dict(
+   text="Bounded model checking of the binary codecs: for every Encodable/Decodable pair of sos-core and sos-vault the real decoder and encoder run from the MIR of the current tree as decode(b) -> v1, encode(v1) -> e1, decode(e1) -> v2 over symbolic bytes b, so v1 ranges over every value within the stated bounds (free-length fields <= 16 bytes, <= 2 collection elements; smaller for composite types in the quick tier). z3 decides per path that encode succeeds, decode(e1) succeeds and consumes exactly the bytes written, v2 == v1 field by field, and that encode consults neither clock nor RNG; counterexamples are replayed natively (decode/encode/decode/encode must be stable).",
+   note="Trusted: rustc MIR, mirsym with its rope writer/reader and std models, z3. Assumed: external text formats (url, urn, age, pem, vcard, JSON bodies) parse/print as inverses. Outside: prost wire conversions and the database row mapping (not built), values larger than the bounds, SecretRow and Vault containers in the quick tier (thorough only).",
+   design="DESIGN.md section 3, C14"),
  "C08": dict(
    text="Bounded model checking of the real comparison code: CommitTree::{append,commit,head,proof,compare} and CommitProof::verify_leaves are executed from the MIR of the current tree for every pair of sequence lengths up to the bound (4x4 quick, 7x7 thorough) with symbolic leaf identifiers, so one solver query covers every equality pattern between the two logs (repeats, equal leaves over different prefixes). The oracle is the prefix relation on the raw sequences; z3 decides each implication per path, counterexamples are replayed on the real CommitTree. The tests use one pair of trees with unique leaves where one extends the other.",
    note="Trusted: rustc MIR, the mirsym interpreter, the ideal-hash port of rs_merkle 1.5 (compared with the real crate on every run: roots, leaves, proofs, verification matrix for sizes <= 8, batched commits, rollbacks), collision-freeness of SHA-256, z3. Bounds: sequence lengths. Outside: proof (de)serialisation (C14/C15), the network around the ancestor scan.",
